@@ -186,6 +186,19 @@ def shared_lock_state(M, mk_root, mp, setenv):
         la.remove("probe-identifier")
         if shared:
             bad.append((name, "an identifier locked through one store instance is locked in the other"))
+        # ... nor may one instance keep two kinds of identifier in one list (a cid and a document name can be the
+        # same string: an object whose bytes are pid + format)
+        for n2 in LOCK_LISTS:
+            if n2 <= n:
+                continue
+            l2 = getattr(a, n2 + ("_mp" if mp else "_th"), None)
+            if l2 is None:
+                continue
+            la.append("probe-identifier")
+            same = "probe-identifier" in list(l2)
+            la.remove("probe-identifier")
+            if same:
+                bad.append((name, "and %s of one instance are the same list" % (n2 + ("_mp" if mp else "_th"))))
     return bad
 
 
